@@ -96,7 +96,7 @@ def main(c):
             alg.run(b)
         if c.get("gauss_pending"):
             random.gauss(0.0, 1.0)        # user code drew one Gaussian between run calls: its twin is now cached inside the generator
-        platypus.save_state(c["file"], alg)
+        platypus.save_state(c["file"], alg, json=bool(c.get("json")))
         digest = state_digest(alg)
         alg.run(c["budgets"][-1])
         return dict(fingerprint(alg), state=digest)
